@@ -1112,6 +1112,11 @@ Proof.
     + now rewrite app_nil_r.
   - (* NestedIn: not available in the configuration the theorem is about *)
     cbn [nested no_quirks] in H. trivial_res H.
+  - (* ExtWrap *)
+    destruct (go n m g ctx s) as [r1 s2] eqn:E. use IH E.
+    destruct r1; try trivial_res H.
+    + inv_pair H. ok_elim P. cbn. fin_ok.
+    + err_elim P. destruct (alt s2) as [[q e]|]; [|trivial_res H]. inv_pair H. cbn. fin_err.
 Qed.
 
 End Refine.
